@@ -58,6 +58,8 @@ impl Completions {
     pub(crate) fn poll(&mut self, shared: &Shared, timeout: Option<Duration>) -> io::Result<()> {
         let mut head = load_kernel_shared(self.entries_head);
         let mut tail = load_kernel_shared(self.entries_tail);
+        #[cfg(a10_verif)]
+        crate::verif::emit("CqPollBegin", [shared.id(), u64::from(head), u64::from(tail), 0, 0, 0]);
         if head >= tail {
             // If we have no completions we make a system call to wait for
             // completion events.
@@ -72,6 +74,8 @@ impl Completions {
             shared.polling.set_polling(false);
             result?;
             tail = load_kernel_shared(self.entries_tail);
+            #[cfg(a10_verif)]
+            crate::verif::emit("CqReload", [shared.id(), u64::from(head), u64::from(tail), 0, 0, 0]);
         }
 
         debug_assert!(tail >= head);
@@ -84,6 +88,19 @@ impl Completions {
             // SAFETY: the pointer is valid and we've ensured above that the
             // kernel has written a new completion.
             let completion = unsafe { &*ptr };
+            #[cfg(a10_verif)]
+            {
+                crate::verif::yield_point("cq.entry");
+                let fields = [
+                    shared.id(),
+                    u64::from(head),
+                    index as u64,
+                    completion.0.user_data,
+                    completion.0.res as u32 as u64,
+                    u64::from(completion.0.flags),
+                ];
+                crate::verif::emit("CqEntry", fields);
+            }
             log::trace!(completion:?, index, head; "dequeued completion");
             // SAFETY: we're only processing the completion once.
             unsafe { completion.process() };
@@ -93,12 +110,19 @@ impl Completions {
         }
 
         // Let the kernel write more completions.
+        #[cfg(a10_verif)]
+        {
+            crate::verif::yield_point("cq.pre_head");
+            crate::verif::emit("CqPollEnd", [shared.id(), u64::from(head), 0, 0, 0, 0]);
+        }
         unsafe { (&*self.entries_head.as_ptr()).store(head, Ordering::Release) };
 
         Ok(())
     }
 
     pub(crate) fn drop(&mut self, shared: &Shared) {
+        #[cfg(a10_verif)]
+        crate::verif::emit("RingDrop", [shared.id(), 0, 0, 0, 0, 0]);
         // Submit any pending operations, mainly aiming to submit clean up
         // operations such as asynchronously closing fds, etc.
         let mut flags = 0; // Only submit.
@@ -145,6 +169,8 @@ unsafe impl Sync for Completions {}
 
 impl Drop for Completions {
     fn drop(&mut self) {
+        #[cfg(a10_verif)]
+        crate::verif::emit("CqDrop", [self.ring.as_ptr() as u64, 0, 0, 0, 0, 0]);
         let entries_len = (self.entries_len as usize) * size_of::<Completion>();
         // NOTE: poisoned in Completions::new.
         asan::poison_region(self.entries.as_ptr().cast(), entries_len);
@@ -180,6 +206,8 @@ impl Completion {
         // Skip the completion events that are inserted as padding to fill gaps
         // in the ring.
         if self.0.flags & libc::IORING_CQE_F_SKIP != 0 {
+            #[cfg(a10_verif)]
+            crate::verif::emit("CqOutcome", [self.0.user_data, 0, 0, 0, 0, 0]);
             return;
         }
 
@@ -210,6 +238,8 @@ impl Completion {
             }
             _ => { /* Process completion below. */ }
         }
+        #[cfg(a10_verif)]
+        crate::verif::yield_point("cq.process.pre_lock");
 
         let ptr: *const () = ptr::with_exposed_provenance(user_data as usize);
         let is_singleshot = ptr.addr() & MULTISHOT_TAG == 0;
@@ -223,6 +253,15 @@ impl Completion {
             let head: &op::MultiShared = unsafe { &*ptr.cast() };
             lock(head).update(self)
         };
+        #[cfg(a10_verif)]
+        {
+            let outcome = match &update {
+                op::StatusUpdate::Ok => 2,
+                op::StatusUpdate::Wake(_) => 3,
+                op::StatusUpdate::Drop { .. } => 4,
+            };
+            crate::verif::emit("CqOutcome", [user_data, outcome, 0, 0, 0, 0]);
+        }
         match update {
             op::StatusUpdate::Ok => { /* Done. */ }
             op::StatusUpdate::Wake(waker) => {
